@@ -2,7 +2,8 @@
 
 Deciding monitor: postcondition on matid.geometry.get_displacement_tensor (bound on package and module,
 so get_distances / get_dimensionality / SBC / Classifier calls are observed in situ as well), judged
-against brute-force lattice sums (oracles/mic.py) cross-checked with ASE find_mic.
+against brute-force lattice sums with a proven search radius (oracles/mic.py), themselves cross-checked on sampled
+pairs by a wide exhaustive lattice search (ASE's find_mic turned out to be unreliable for sheared cells, DESIGN.md 11).
 """
 import os
 
@@ -21,7 +22,7 @@ RULE = ("cases = batches of random get_displacement_tensor/get_distances calls (
         "plus SBC/Classifier pipeline runs observed in situ; an execution is non-trivial when at least one pair is "
         "judged and periodic images matter (some pbc) or a finite cutoff separates pairs; distinct = (cell kind, pbc "
         "mask, cutoff class, n atoms, lane, context)")
-ASSUMPTIONS = ["numpy linear algebra; ASE find_mic (cross-check only)", "ctypes adapter validated bit-for-bit against the installed binding at run time",
+ASSUMPTIONS = ["numpy linear algebra; the brute-force oracle is cross-checked by a wide exhaustive search on sampled pairs", "ctypes adapter validated bit-for-bit against the installed binding at run time",
                "ASan red zones / UBSan checks only see executed paths"]
 CASE_TIMEOUT = 300
 BUDGET_S = {"quick": 600, "thorough": 3000}
